@@ -808,6 +808,7 @@ class bpseq_elements_prefix:
     raises = []
     ensures = []
     stop_before = "graph = defaultdict(set)"
+    prune_branches = True  # index / slice-bound normalisation is simplified where the path condition decides it
     stop_ensures = [
         "stems_ok(E, S) and stems_cover(E, S) and stems_maximal(E, S) and stems_inverse(E, S, GS)",
         "stems_are(stems, S)",
@@ -872,12 +873,14 @@ class bpseq_elements_prefix:
                 " | assert implies(c and qual(E[y]), p0 <= y and x <= p1 and y < x)"
                 " | assert implies(c, p0 <= x and x <= p1)",
                 "assert 0 <= p0 and p0 <= p1 and p1 < n and E[p0].pair != 0 and E[p1].pair != 0"]},
+        {"when": "before", "at": "candidate = self.entries[", "loop": 1, "label": "ends",
+         "do": ["assert i >= 1 and i < len(stops) and n == len(E) and n >= 0",
+                "assert 0 <= stops[i - 1] and stops[i - 1] < stops[i] and stops[i] < n and E[stops[i - 1]].pair != 0 and E[stops[i]].pair != 0"]},
         {"when": "before", "at": "if all([entry.pair == 0 for entry in candidate[1:-1]])", "loop": 1, "label": "candidate",
          "do": ["let p = stops[i - 1]", "let q = stops[i]", "let C1 = candidate[1:-1]",
                 # (the slices carry Python's index normalisation as nested conditionals: every step is proved from the few
                 # ground facts it needs)
                 "assert 0 <= p and p < q and q < n and E[p].pair != 0 and E[q].pair != 0",
-                "assert len(DB) == n",
                 "assert i >= 1 and i < len(stops) and n == len(E) and n >= 0",
                 "assert_last 3 len(candidate) == q - p + 1 and len(C1) == q - p - 1",
                 "forall t | assert_last 4 implies(0 <= t and t < q - p + 1, candidate[t] is E[p + t])"
@@ -899,7 +902,7 @@ class bpseq_elements_prefix:
                 " | assert implies(p + 1 <= x and x < q, E[x].pair == 0)",
                 "assert candidate[0] is E[p] and candidate[-1] is E[q] and E[q].index_ == q + 1",
                 "assert_last 1 (candidate[0].pair == candidate[-1].index_) == (E[p].pair == q + 1)",
-                "assert len(candidate) == q - p + 1 and candidate[0].index_ == p + 1 and 0 <= p and p < q and q < n and n == len(E) and len(DB) == n",
+                "assert len(candidate) == q - p + 1 and candidate[0].index_ == p + 1 and 0 <= p and p < q and q < n and n == len(E)",
                 "assert forall(lambda t: implies(0 <= t and t < q - p + 1, candidate[t] is E[p + t]))",
                 "assert forall(lambda x: implies(p + 1 <= x and x < q, E[x].pair == 0))",
                 "let fr0 = frontier()",
